@@ -1,9 +1,22 @@
 package otr3
 
+import "strings"
+
+// the room a TLV has (65535 bytes) minus the NUL terminator, the count and six MPIs of 1536 bits
+const maxSMPQuestionLength = 65535 - 1 - (4 + 6*(4+192))
+
 // StartAuthenticate should be called when the user wants to initiate authentication with a peer.
 // The authentication uses an optional question message and a shared secret. The authentication will proceed
 // until the event handler reports that SMP is complete, that a secret is needed or that SMP has failed.
 func (c *Conversation) StartAuthenticate(question string, mutualSecret []byte) ([]ValidMessage, error) {
+	// The question travels as a NUL terminated string in front of the six
+	// values of the first SMP message, in a TLV that holds at most 65535 bytes.
+	// A question that does not fit, or that contains a NUL itself, reaches the
+	// peer as a message it can not read - it would never ask its user.
+	if len(question) > maxSMPQuestionLength || strings.IndexByte(question, 0) >= 0 {
+		return nil, newOtrError("the question is too long or contains a NUL byte")
+	}
+
 	c.smp.ensureSMP()
 
 	tlvs, err := c.smp.state.startAuthenticate(c, question, mutualSecret)
